@@ -83,7 +83,7 @@ def op_hist(cases):
 
 
 def run(pid, tier, seed, profile, oracle, n_quick, n_thorough, variants=None, level="proof", extra_assumptions=None,
-        require_props=True, post=None, mask=1 | 2 | 4 | 8 | 32 | 64):
+        require_props=True, post=None, mask=1 | 2 | 4 | 8 | 32 | 64, mutation_oracle=False):
     """oracle(case, rec, group) -> list of violation dicts (kind='oracle').
     variants(case, rnd) -> list of extra cases derived from `case` (same program, other inputs/flags); the
     group of records of one program is passed to the oracle of its first member."""
@@ -134,7 +134,11 @@ def run(pid, tier, seed, profile, oracle, n_quick, n_thorough, variants=None, le
     for g in groups:
         grp = [(cases[i], recs[i]) for i in g]
         for (c, r) in grp:
-            for v in oracle(c, r, grp):
+            extra = []
+            if r.get("mutated"):
+                extra.append(dict(op="operand-mutation", key="operand-mutation", what="an operation altered the value of an existing object (one of its operands or an earlier result)",
+                                  observed=r["mutated"][:2]))
+            for v in list(oracle(c, r, grp)) + (extra if mutation_oracle else []):
                 v.setdefault("kind", "oracle")
                 v.setdefault("case", dict(cfg=c["cfg"], prog=c["prog"], ins=c["ins"]))
                 oviol.append(v)
@@ -177,5 +181,7 @@ def run(pid, tier, seed, profile, oracle, n_quick, n_thorough, variants=None, le
                bitlengths=dict(collections.Counter(c["cfg"]["n"] for c in cases)),
                error_checking_off=sum(1 for c in cases if c["cfg"]["ign"]), cases_with_guarded_region=guarded,
                oracle_violations=len(oviol))
-    if post: post(cov, cases, recs)
+    if post:
+        more = post(cov, cases, recs)
+        if more: viol += more
     return common.finish(pid, tier, seed, t0, props, cov, viol, level=level, assumptions=extra_assumptions)
